@@ -27,6 +27,8 @@ func runC39(c *eng.Ctx) {
 		Pkg:    "weed/filesys",
 		Exempt: map[string]string{"weed/filesys.newFsCache": "constructor: the value is not shared yet"},
 	})
+	c.CheckLockPairs("PAIR-fscache", "weed/filesys", "FsCache.RWMutex", nil)
+	c.Expect("PAIR-fscache", 5)
 	c.Expect("LOCK-fscache", 6)
 	// mutators take the write side
 	for _, m := range []string{"SetFsNode", "EnsureFsNode", "DeleteFsNode", "Move"} {
